@@ -106,6 +106,10 @@ impl Case17 {
             Ok(g) => g,
             Err(p) => return e("panic-for-combination", format!("the passes with s1 and s2 ran, but the pass with seed alpha*s1+beta*s2 panicked: {}", p)),
         };
+        // a division by a value that an update moved to exactly zero and the like: no finite gradients to relate
+        if [&g1, &g2, &g3].iter().any(|g| g.iter().flatten().any(|(_, v)| v.iter().any(|x| !x.is_finite()))) {
+            return e("discard", "a gradient is not finite".into());
+        }
         let mut compared = false;
         for h in 0..g1.len() {
             match (&g1[h], &g2[h], &g3[h]) {
@@ -356,6 +360,31 @@ pub fn campaigns(ctx: &Ctx) -> Stats {
         let cfg = base_cfg(exact, t);
         let strat = move || (recipe_strategy(len), any::<[u8; 8]>(), any::<u64>()).prop_map(|(prog, p, vseed)| R17 { prog, p, vseed }).boxed();
         st.merge(ctx.run_prop(name, total / 2, strat, move |r| build(&cfg, r)));
+    }
+    // a session: pass, optimizer update (learning rates incl. 0 and negative ones), then the pass whose seed varies -
+    // the update cleared the parameter's gradient, so what the last pass stores is linear in its seed
+    {
+        use OpKind::*;
+        let lrs = [0.0, 0.5, -0.25, 1.0];
+        let ops2: Vec<OpKind> = vec![Mul, Add, Sub, Div, Axpy(2.0)];
+        st.merge(ctx.run_indexed("pass-update-pass", (lrs.len() * ops2.len() * 3 * 4) as u64, None, |i| {
+            let lr = lrs[(i % 4) as usize];
+            let op2 = ops2[((i / 4) % 5) as usize].clone();
+            let k = [1usize, 3, 4][((i / 20) % 3) as usize];
+            let v = (i / 60) as u64;
+            let steps = vec![
+                Step::Leaf { dims: vec![k], vals: gen_vals(i + 1, k, VKind::PosInt), tracked: true },
+                Step::Leaf { dims: vec![k], vals: gen_vals(i + 2, k, VKind::PosInt), tracked: false },
+                Step::Apply(ApplySpec { op: Mul, args: vec![0, 1] }),
+                Step::Backward { h: 2, seed: if v % 2 == 0 { None } else { Some(gen_vals(i + 3, k, VKind::Int)) } },
+                Step::Update { lr, params: vec![0] },
+                Step::Drop { h: 2 },
+                Step::Apply(ApplySpec { op: op2, args: if v < 2 { vec![0, 1] } else { vec![1, 0] } }),
+            ];
+            let s1 = gen_vals(i + 4, k, VKind::Int).iter().map(|x| x + 4.0).collect::<Vec<f64>>();
+            let s2 = gen_vals(i + 5, k, VKind::Int).iter().enumerate().map(|(j, x)| x + if j % 2 == 0 { 5.0 } else { -6.0 }).collect::<Vec<f64>>();
+            Some(Case17 { hist: History { steps }, root: 3, s1, s2, alpha: COEF[(i % 8) as usize], beta: COEF[((i / 8) % 8) as usize], prelude_dims: vec![k] })
+        }));
     }
     for (name, p) in [("programs-with-large-dimensions", Profile::LargeDims), ("programs-with-wide-magnitudes", Profile::WideMagnitudes)] {
         let cfg = base_cfg(false, t).with_profile(p, t == Tier::Thorough, crate::exec::IS_F32);
